@@ -5,6 +5,7 @@ go 1.22
 require (
 	github.com/c2h5oh/datasize v0.0.0-20231215233829-aa82cc1e6500
 	github.com/klauspost/compress v1.17.9
+	github.com/prometheus/client_golang v1.19.1
 	github.com/relex/fluentlib v0.0.0-20240516105411-5529b575f355
 	github.com/relex/gotils v1.1.1
 	github.com/relex/slog-agent v0.0.0
@@ -18,7 +19,6 @@ require (
 	github.com/gobwas/glob v0.2.3 // indirect
 	github.com/munnerz/goautoneg v0.0.0-20191010083416-a7dc8b61c822 // indirect
 	github.com/pkg/xattr v0.4.9 // indirect
-	github.com/prometheus/client_golang v1.19.1 // indirect
 	github.com/prometheus/client_model v0.6.1 // indirect
 	github.com/prometheus/common v0.55.0 // indirect
 	github.com/prometheus/procfs v0.15.1 // indirect
